@@ -662,6 +662,8 @@ class EvalMixin:
             return [Res(st, self.module_global(st, obj.t, attr))]
         if k == "ext":
             return [Res(st, SV("ext", obj.t + "." + attr))]
+        if k == "inst" and obj.h == "Lock" and attr in ("acquire", "release", "locked"):
+            return [Res(st, SV("meth", (obj, attr)))]
         if k == "inst":
             if attr == "__class__":
                 if obj.x in ("exc", "sub"):
